@@ -246,9 +246,16 @@ def settle(pid, verdicts, obs_files, tier, extra_samples=None):
     """Turn judge verdict lines for property `pid` into KNOWN-FINDING / VIOLATION output.
     Returns (n_violations, n_known, summary dict)."""
     known = [k for k in load_known()["findings"] if k["property"] == pid]
-    kmap = {}
-    for kf in known:
-        kmap[(kf["clause"], sig_key(kf["signature"]))] = kf
+
+    def kf_match(clause, sig):
+        """signature elements of a known finding: exact value, "*" or a list of alternatives"""
+        for kf in known:
+            ks = kf["signature"]
+            if kf["clause"] != clause or len(ks) != len(sig):
+                continue
+            if all(a == "*" or a == b or (isinstance(a, list) and b in a and not isinstance(b, list)) for a, b in zip(ks, sig)):
+                return kf
+        return None
     groups, diverg, other = {}, {}, {}
     for v in verdicts:
         tag, prop, clause, k, sig = v[0], v[1], v[2], v[3], v[4]
@@ -259,15 +266,16 @@ def settle(pid, verdicts, obs_files, tier, extra_samples=None):
                 groups.setdefault((clause, sig_key(sig)), []).append(k)
             else:
                 other[prop] = other.get(prop, 0) + 1
-    n_viol, n_known, lines = 0, 0, []
+    n_viol, n_known, lines, kf_lines = 0, 0, [], {}
     summary = {"known_findings_hit": {}, "violations": {}, "divergences": {k: len(v) for k, v in diverg.items()},
                "verdicts_for_other_properties": other}
     for (clause, sk), ks in sorted(groups.items()):
-        if (clause, sk) in kmap:
+        kf = kf_match(clause, json.loads(sk))
+        if kf is not None:
             n_known += len(ks)
-            kf = kmap[(clause, sk)]
-            print("KNOWN-FINDING: property=%s clause=%s signature=%s cases=%d %s" % (pid, clause, sk, len(ks), kf["what"]))
-            summary["known_findings_hit"]["%s %s" % (clause, sk)] = len(ks)
+            key = "%s %s" % (clause, kf["id"])
+            summary["known_findings_hit"][key] = summary["known_findings_hit"].get(key, 0) + len(ks)
+            kf_lines[key] = kf
         else:
             n_viol += len(ks)
             rec = fetch_record(obs_files, ks[0]) if obs_files else None
@@ -280,6 +288,8 @@ def settle(pid, verdicts, obs_files, tier, extra_samples=None):
             print("VIOLATION property=%s replay=%s" % (pid, rpath))
             print("  clause=%s signature=%s cases=%d first=%s" % (clause, sk, len(ks), ks[0]))
             summary["violations"]["%s %s" % (clause, sk)] = len(ks)
+    for key, kf in sorted(kf_lines.items()):
+        print("KNOWN-FINDING: property=%s %s [%s, %d cases] %s" % (pid, kf["id"], kf["clause"], summary["known_findings_hit"][key], kf["what"]))
     return n_viol, n_known, summary
 
 
